@@ -35,6 +35,22 @@ pub fn parse_type(t: &str) -> Ty {
     if let Some(n) = width("int") { if n % 8 == 0 && (8..=256).contains(&n) { return Ty::Int(n); } }
     Ty::Struct(t.to_string())
 }
+/// Exotic but unambiguous spellings of a member type (leading zeros or '+' in a width or an array size): the properties
+/// do not oblige the tool to read them, but if it does, the type it means is the canonically spelled one.
+pub fn lenient_canonical(t: &str) -> Option<String> {
+    fn num(d: &str) -> Option<String> { let d = d.strip_prefix('+').unwrap_or(d); if d.is_empty() || !d.bytes().all(|b| b.is_ascii_digit()) { return None; } let z = d.trim_start_matches('0'); Some(if z.is_empty() { "0".to_string() } else { z.to_string() }) }
+    if let Some(inner) = t.strip_suffix("[]") { return lenient_canonical(inner).map(|c| format!("{c}[]")); }
+    if t.ends_with(']') { if let Some(open) = t.rfind('[') { let k = &t[open + 1..t.len() - 1]; let inner = &t[..open];
+        let kc = num(k)?; let ic = lenient_canonical(inner).unwrap_or_else(|| inner.to_string());
+        let c = format!("{ic}[{kc}]"); return if c != t { Some(c) } else { None }; } }
+    for p in ["bytes", "uint", "int"] { if let Some(d) = t.strip_prefix(p) { if let Some(w) = num(d) { let c = format!("{p}{w}"); if c != t && !matches!(parse_type(&c), Ty::Struct(_)) { return Some(c); } } } }
+    None
+}
+/// the member type the document means: the declared text, or (unconstrained) its canonical spelling
+fn effective_type(doc: &Doc, mt: &str, unc: &mut bool) -> String {
+    if let Some(r) = struct_ref(&parse_type(mt)) { if doc.members(r).is_none() { if let Some(c) = lenient_canonical(mt) { let ok = match struct_ref(&parse_type(&c)) { None => true, Some(r2) => doc.members(r2).is_some() }; if ok { *unc = true; return c; } } } }
+    mt.to_string()
+}
 fn struct_ref(t: &Ty) -> Option<&str> { match t { Ty::Struct(s) => Some(s), Ty::Array(i, _) => struct_ref(i), _ => None } }
 
 #[derive(Clone, Debug, PartialEq, Eq)]
@@ -45,7 +61,8 @@ fn bad<T>(s: impl Into<String>) -> R<T> { Err(Nonconforming(s.into())) }
 fn collect_deps(doc: &Doc, name: &str, seen: &mut BTreeSet<String>) -> R<()> {
     let members = doc.members(name).ok_or_else(|| Nonconforming(format!("undefined struct type {name}")))?;
     for (_, mt) in members {
-        if let Some(r) = struct_ref(&parse_type(mt)) { if !seen.contains(r) { seen.insert(r.to_string()); collect_deps(doc, r, seen)?; } }
+        let mt = effective_type(doc, mt, &mut false);
+        if let Some(r) = struct_ref(&parse_type(&mt)) { if !seen.contains(r) { seen.insert(r.to_string()); collect_deps(doc, r, seen)?; } }
     }
     Ok(())
 }
@@ -53,7 +70,7 @@ pub fn encode_type(doc: &Doc, name: &str) -> R<String> {
     let mut deps = BTreeSet::new();
     collect_deps(doc, name, &mut deps)?;
     deps.remove(name);
-    let one = |n: &str| -> String { format!("{}({})", n, doc.members(n).unwrap().iter().map(|(mn, mt)| format!("{} {}", mt, mn)).collect::<Vec<_>>().join(",")) };
+    let one = |n: &str| -> String { format!("{}({})", n, doc.members(n).unwrap().iter().map(|(mn, mt)| format!("{} {}", effective_type(doc, mt, &mut false), mn)).collect::<Vec<_>>().join(",")) };
     let mut s = one(name);
     for d in &deps { s += &one(d); } // BTreeSet<String>: bytewise order
     Ok(s)
@@ -107,7 +124,8 @@ pub fn hash_struct(doc: &Doc, name: &str, v: &J, unc: &mut bool) -> R<[u8; 32]> 
         let mut hits = obj.iter().filter(|(k, _)| k == mn);
         let val = &hits.next().ok_or_else(|| Nonconforming(format!("{name} value misses member {mn}")))?.1;
         if hits.next().is_some() { *unc = true; } // duplicate JSON keys: behaviour is the JSON parser's
-        buf.extend_from_slice(&encode_value(doc, &parse_type(mt), val, unc)?);
+        let mt = effective_type(doc, mt, unc);
+        buf.extend_from_slice(&encode_value(doc, &parse_type(&mt), val, unc)?);
     }
     for (k, _) in obj { if !members.iter().any(|(mn, _)| mn == k) { return bad(format!("{name} value has undeclared member {k}")); } }
     Ok(keccak256(&buf))
